@@ -90,6 +90,10 @@ impl Copy for R {}
 #[verifier::external_body]
 pub fn ex_bool(g: Ghost<bool>) -> (b: bool) ensures b == g@ { unimplemented!() }
 
+/// stand-in for the panic entry points (N2): reaching it is a proof failure
+#[verifier::external_body]
+pub fn vpanic() -> ! requires false { unimplemented!() }
+
 pub open spec fn rr(x: real) -> R { R { v: Ghost(x) } }
 pub fn mk(x: Ghost<real>) -> (r: R) ensures r.v@ == x@ { R { v: x } }
 
